@@ -350,6 +350,53 @@ register(PropertySpec(
 ))
 
 
+from . import binding
+
+register(PropertySpec(
+    id="C02",
+    title="a multi-variable query returns exactly the satisfying assignments",
+    rules=[
+        Rule("BIND-THREAD", binding.rule_bind_thread, 30,
+             "at each evaluation call site the binding handed to the operand derives from the incoming binding and, "
+             "inside a loop over a sibling's results, from that sibling's result (def-use provenance)"),
+        Rule("BIND-KEEP", binding.rule_bind_keep, 12,
+             "in every loop over an evaluation stream that hands rows on, the whole binding of the loop variable flows "
+             "into each row (copy/update/itself), never only a projection of it"),
+        Rule("PRODUCT", binding.rule_product, 1,
+             "the combinator completing unbound selected variables is of class all-combinations (itertools.product / "
+             "recursive nested iteration), not lock-step (zip, islice, lone next)"),
+    ],
+    explanation="An implicit join is a join only if every operator threads the binding it received to its operands and "
+                "keeps everything its operands bound. Both are provenance facts on the evaluation call sites and the "
+                "loops around them, decided by def-use analysis; a projection (r[k]) of a child's binding silently "
+                "discards variables which are later re-completed by a free product. Not decided: duplicate suppression, "
+                "operand ordering, the two disjunction implementations.",
+    assumptions=["consumers merge the incoming binding (Variable.__iter__ deliberately yields only its own id)"],
+    design_ref="DESIGN.md §2 C02",
+))
+
+
+register(PropertySpec(
+    id="C16",
+    title="flatten behaves as UNNEST: one row per inner element, correlated with its parent",
+    rules=[
+        Rule("FLATTEN-EACH", aggregates.rule_flatten_each, 3,
+             "Flatten._apply_mapping_ yields once per inner element on every path, unconditionally, iterating the inner "
+             "value as it is; a non-iterable is wrapped as a singleton"),
+        Rule("BIND-KEEP", binding.rule_bind_keep, 12,
+             "each yielded binding extends the child's binding for that element (DomainMapping._evaluate__), and the "
+             "query descriptor keeps everything a selected expression bound (parent correlation when the parent is "
+             "selected alongside)"),
+    ],
+    explanation="UNNEST is 'one row per inner element, all other variables keep the binding that produced it': the "
+                "first half is a path property of one small generator, the second is the BIND-KEEP provenance rule at "
+                "the mapping generator and at the query descriptor. Falsy inner elements are C19's rule. Not decided: "
+                "row multiplicity under additional conditions (duplicate suppression).",
+    assumptions=[],
+    design_ref="DESIGN.md §2 C16",
+))
+
+
 def _attach_sensitivity():
     from ..props import SPECS
     from .. import variants
